@@ -155,6 +155,7 @@ def _calibration(ctx, N, cls):
     else:
         ctx.ob("R-PADPAIR", "dSL_ allocated with the resolved n_to_select", False, f"dSL_ = {dsl!r}", site)
     ctx.shape_is("Shape", "vlocation_of_idx has one entry per sample", heap.get("vlocation_of_idx"), ("N",), site)
+    ctx.no_shape_conflicts("Shape", "_init_greedy_search: extents agree, no reduced-precision buffer", I, lo, site)
     I2, s2 = ctx.interp(), State()
     ref = ctx.call_func(I2, s2, "ref.selection_ref.fps_norms", X, 0)
     ctx.compare("NF-DIST", "norms_ defined as in plain FPS (sample direction)", N, heap.get("norms_"), ref, site)
@@ -162,7 +163,8 @@ def _calibration(ctx, N, cls):
     from ..harness import index as _index
     from ..terms import const as _const
 
-    for vname, init_v in (("int", _index("i0", "N")), ("random", vconst("random"))):
+    # an index obtained from numpy (np.argmax, an element of an index array) is an integer too
+    for vname, init_v in (("int", _index("i0", "N")), ("numpy integer", _index("i0", "N", labels=("numpy-scalar",))), ("random", vconst("random"))):
         pushed = []
 
         def rec(interp, clo, args, kw, st_, node):
@@ -177,9 +179,18 @@ def _calibration(ctx, N, cls):
         ctx.call_method(Ii, si, oi, "_init_greedy_search", X, y, integer("S"))
         sel = hi.get("selected_idx_")
         ok = len(pushed) == 1 and sel is not None and pushed[0] is not None and N.nf(pushed[0].term) == N.nf(T("getitem", sel.term, _const(0)))
-        if ok and vname == "int":
+        if ok and vname in ("int", "numpy integer"):
             ok = N.nf(pushed[0].term) == N.nf(init_v.term)
         ctx.ob("R-INDEXSPACE", f"the initial pick is stored in slot 0 and is the point the tables are initialised from [{vname}]", ok, f"pushed {[repr(p_.term)[:80] if p_ is not None else None for p_ in pushed]} ; selected_idx_ = {None if sel is None else repr(sel.term)[:120]}", site, vname)
+    # calibrated switching point together with a random first pick: the pick is drawn from a stream
+    # that the timing trials have not advanced
+    Ir = ctx.interp(stubs={"VoronoiFPS._update_post_selection": noop}, assume=protocols.assume_default)
+    sr = State()
+    orr = ctx.construct(Ir, sr, cls, n_to_select=integer("S"), initialize="random")
+    sr.heap[orr.obj.id]["_axis"] = vconst(0)
+    ctx.call_method(Ir, sr, orr, "_init_greedy_search", X, y, integer("S"))
+    selr = sr.heap[orr.obj.id].get("selected_idx_")
+    ctx.ob("TAINT-TIME", "the random first pick does not depend on the timing trials", selr is not None and selr.kind != "undef" and "time" not in selr.labels, f"selected_idx_ labels {sorted(selr.labels) if selr is not None else None}: {repr(selr.term)[:160] if selr is not None else None}", site, "initialize=random, calibrated")
     # refit: every table is rebuilt from the new data
     from .C08 import _fitted_state
 
